@@ -289,6 +289,37 @@ int main(int argc, char** argv) {
         report(r, P, root, s.get_data(), st, log, eps_min, log.size() < 6000 && !C06_LINES);
         delete bsc; if (withnewton) delete withnewton; if (newton) delete newton;
       }
+      // ---- shaving as the solver's contractor, the solution a few floats away from the end point of a slice of the ROOT box:
+      //      x0 - x1 = 0, x0 + x1 = 2c (solution (c,c), exact for every double c), slices computed as Ctc3BCid computes them
+      if (!C06_LINES && r.coin(20)) {
+        int s3b = r.range(3, 12);
+        double lb = r.range(-40, 40) / 8.0 + (r.coin() ? 0.0 : r.range(1, 9) / 10.0), diam = r.range(1, 40) / 4.0 + (r.coin() ? 0.0 : r.range(1, 9) / 10.0);
+        volatile double ub = lb + diam; volatile double w = (ub - lb) / s3b; int kk = r.range(1, s3b - 1);
+        volatile double b1 = lb + kk * w; volatile double b0 = lb + (kk - 1) * w; volatile double b2 = b0 + w;
+        double lo = std::min((double)b1, (double)b2), hi = std::max((double)b1, (double)b2);
+        for (int q = 0; q < 2; q++) { lo = std::nextafter(lo, -1e300); hi = std::nextafter(hi, 1e300); }
+        vector<double> cand; for (double c = lo; c <= hi && cand.size() < 64; c = std::nextafter(c, 1e300)) cand.push_back(c);
+        for (int rep = 0; rep < 6; rep++) {
+        Problem Q; Q.n = 2; Q.m = 2; Q.k = 0;
+        double c = cand[r.below(cand.size())];
+        Array<const ExprSymbol> sx(2); sx.set_ref(0, ExprSymbol::new_("z0", Dim::scalar())); sx.set_ref(1, ExprSymbol::new_("z1", Dim::scalar()));
+        const ExprNode& e1 = sx[0] - sx[1]; const ExprNode& e2 = sx[0] + sx[1] - ExprConstant::new_scalar(2 * c);
+        IntervalVector rb(2); int var = r.below(2); rb[var] = Interval(lb, ub); rb[1 - var] = Interval(c - r.range(1, 16) / 4.0, c + r.range(1, 16) / 4.0);
+        SystemFactory fac; fac.add_var(sx, rb); fac.add_ctr(ExprCtr(e1, EQ)); fac.add_ctr(ExprCtr(e2, EQ));
+        Q.dags = dump_expr(e1, sx) + "|" + dump_expr(e2, sx); Q.specs = "eq|eq"; Q.sys = new System(fac);
+        Vector pl(2); pl[0] = c; pl[1] = c; Q.planted.push_back(pl);
+        {
+          CtcHC4 hc4(*Q.sys, 0.01); Ctc3BCid cid(hc4, s3b, 1, -1, 1e-11); LogCtc lctc(cid);
+          Vector em(2, 0.125); RoundRobin rr(em, 0.45); CellStack stack; LogBuffer lbuf(stack);
+          Solver s(*Q.sys, lctc, rr, lbuf, em, Vector(2, POS_INFINITY)); s.cell_limit = 3000; s.time_limit = 20; s.trace = 0;
+          vector<string> log; LOG = &log; RUN_ID++; DISCARDS.clear(); REPLACED.clear();
+          Solver::Status st = s.solve(rb);
+          LOG = 0; check_round_up("solver-3bcid");
+          report(r, Q, rb, s.get_data(), st, log, em, log.size() < 6000);
+        }
+        delete Q.sys;
+        }
+      }
       // ---- the default solver must deliver a paving and a status (no LP library in this build) ----
       if (r.coin(50)) {
         try {
